@@ -25,7 +25,7 @@ def _t_reshape(c):
     if n == 1:
         cands.append(())
     new = c.choice(cands)
-    order = c.choice([None, "C", "F"])
+    order = c.choice([None, "C", "F", "A"])
     form = c.int(0, 3)  # 0 func, 1 func order kw, 2 method tuple, 3 method star
     if form == 3 and len(new) == 0:
         form = 2
@@ -47,7 +47,7 @@ def _t_reshape(c):
 @template("s:ravel", "shape")
 def _t_ravel(c):
     s = c.shape(0, 4)
-    order = c.choice([None, "C", "F"])
+    order = c.choice([None, "C", "F", "A", "K"])
     form = c.int(0, 2)
     if form == 0 or len(s) == 0:
         fn = (lambda ns, x: ns.ravel(x, order=order)) if order else (lambda ns, x: ns.ravel(x))
